@@ -65,7 +65,7 @@ class LTask:
 class Sim:
     def __init__(self, seed, *, workers=4, strategy="random", switch_p=0.3,
                  max_events=60000, max_time=4 * 3600.0, trace_files=None,
-                 line_p=0.0, pct_changes=3, drain_on_error=True):
+                 line_p=0.0, pct_changes=3, drain_on_error=True, stall_p=0.0):
         self.seed = seed
         self.rng = random.Random(seed)
         self.workers = workers
@@ -76,6 +76,7 @@ class Sim:
         self.trace_files = tuple(trace_files or ())
         self.line_p = line_p
         self.drain_on_error = drain_on_error
+        self.stall_p = stall_p            # share of logical tasks that are 'slow nodes'
         self.now = 0.0
         self.log = []
         self.tasks = []
@@ -142,6 +143,9 @@ class Sim:
         parent = self.current
         t = self._new_task(name, fn, parent.id if parent else None)
         t.wake_at = self.now
+        if self.stall_p and self.rng.random() < self.stall_p:
+            t.stall = 200.0
+            self.count("stalled_task")
         th = threading.Thread(target=self._thread_main, args=(t,), daemon=True,
                               name=f"sim-{t.id}")
         t.thread = th
